@@ -33,7 +33,7 @@ func vhSpecMaxCommon(a, b []uint8) (uint8, bool) {
 
 // findBiggestSameNumber == max(A ∩ B), symmetric, error iff the intersection is empty.
 //
-//verif:harness C19.max_common unwind=12 native
+//verif:harness C19.max_common unwind=60 native
 //verif:param K=3/5
 func vhC19MaxCommon() {
 	la := vsChoose("la", vsParam("K")+1)
@@ -59,7 +59,7 @@ func vhC19MaxCommon() {
 // getOrStoreHighestVersion: highest common version; own base version when the peer advertises
 // none; an error when there is no common version - and the error is not forgotten by the cache.
 //
-//verif:harness C19.negotiate unwind=12 native
+//verif:harness C19.negotiate unwind=60 native
 //verif:use enr
 //verif:param K=2/4
 func vhC19Negotiate() {
